@@ -2,8 +2,9 @@
    consumers.  Statements only.  Consumers receive labels; LC i / LCW i / LT i
    stand for the serialised bytes of published message number i (RTMP chunks
    without / with @setDataFrame, FLV tag), see Group/GroupFanout.v. *)
-From Lal Require Import Common.LBytes Group.GroupMsg Group.GroupGopCache Group.GroupFanout Group.GroupFanoutProofs
-  Group.GroupFanoutMergeProofs.
+From Lal Require Import Common.LBytes Rtmp.RtmpChunk Rtmp.RtmpComposer Rtmp.RtmpRoundtripProofs Flv.FlvTag.
+From Lal Require Import Group.GroupMsg Group.GroupGopCache Group.GroupFanout Group.GroupFanoutProofs
+  Group.GroupFanoutMergeProofs Group.GroupFanoutBytes Group.GroupFanoutBytesProofs.
 Open Scope N_scope.
 
 (* Contiguity.  Take any configuration, any history h0 after which consumer
@@ -75,6 +76,30 @@ Theorem c01_admission_loop : forall cache key subs merge,
    if anytrig cache key subs then [] else merge).
 Proof. exact rtmp_loop_spec. Qed.
 Print Assumptions c01_admission_loop.
+
+(* Byte level.  The unit a label stands for is what lal's own conversion
+   produces ([chunk_bytes] = MakeDefaultRtmpHeader + Message2Chunks at chunk
+   size 4096 of the C08 model, [tag_bytes] = PackHttpflvTag of the C11 model,
+   metadata through the C18 model).  Decoding the concatenated units of ANY
+   sequence of published messages with lal's chunk reader returns messages with
+   the same type, the same absolute millisecond timestamp and byte-identical
+   payloads (metadata: @setDataFrame stripped / ensured), in the same order -
+   timestamps >= 0xFFFFFF and payloads of any length < 2^24 included. *)
+Theorem c01_decodes_rtmp : forall with_sdf ms st,
+  Forall (pub_ok with_sdf) ms -> cs_chunk st = local_chunk_size -> all_idle st ->
+  exists st' out,
+    run_composer st (units_bytes with_sdf ms) = (st', out, err_eof) /\
+    map m_hdr out = map (fun m => default_header m (lenN (conv_payload with_sdf m))) ms /\
+    map m_payload out = map (conv_payload with_sdf) ms /\ all_idle st'.
+Proof. exact rtmp_units_decode. Qed.
+Print Assumptions c01_decodes_rtmp.
+
+Theorem c01_decodes_flv : forall ms,
+  Forall (pub_ok false) ms ->
+  spec_parse_tags (length ms) (concat (map tag_bytes ms))
+  = Some (map (fun m => (rm_type m, rm_ts m, conv_payload false m)) ms).
+Proof. exact flv_units_decode. Qed.
+Print Assumptions c01_decodes_flv.
 
 (* non-vacuity: a concrete history with merge-write on in which an RTMP
    subscriber (id 1), an HTTP-FLV subscriber (id 2) and a push session (id 3)
